@@ -361,7 +361,8 @@ func (m *model) observe() {
 // store (not closed), instances the harness still references (not dropped), and from those
 // transitively the instances their function imports are bound to, every instance involved
 // (exporter/importers) in a table they use and, with the compiler only, the instance an
-// imported global belongs to. Suspended calls are deliberately not counted.
+// imported global belongs to. An instance with a suspended call counts as well (the goroutine
+// stack references it, and the call uses its tables when it resumes).
 func (m *model) retained() map[int]bool {
 	ret := map[int]bool{}
 	var work []int
@@ -374,6 +375,11 @@ func (m *model) retained() map[int]bool {
 	for h, in := range m.insts {
 		if in.ok && !(in.closed && in.dropped) {
 			add(h)
+		}
+	}
+	for _, c := range m.calls {
+		if !c.finished {
+			add(c.inst) // the suspended call will use the instance's tables when it resumes
 		}
 	}
 	for len(work) > 0 {
@@ -450,18 +456,28 @@ var instNames = []string{"", "a", "b", "c"}
 func genSpecs(t *rapid.T) []modSpec {
 	n := rapid.IntRange(2, 4).Draw(t, "nspecs")
 	specs := make([]modSpec, n)
-	from := func(label string) string {
-		return rapid.SampledFrom([]string{"", "a", "a", "a", "b"}).Draw(t, label)
-	}
 	for i := range specs {
 		s := modSpec{ID: i + 1, Elem: -1}
-		if i > 0 { // spec 0 never imports from a guest, so that something can always be instantiated
-			s.ImpFrom = from("imp_from")
-			s.TabFrom = from("tab_from")
-			s.GlobFrom = rapid.SampledFrom([]string{"", "", "", "a", "b"}).Draw(t, "glob_from")
+		if i == 0 {
+			// spec 0 imports nothing from guests (something can always be instantiated) and
+			// exports everything (the others can import from it)
+			s.ExpTab, s.ExpGlob = true, true
+		} else {
+			// all imports of one module come from one name; which kinds is drawn
+			from := rapid.SampledFrom([]string{"a", "a", "b"}).Draw(t, "from")
+			kinds := rapid.SampledFrom([]int{0, 1, 1, 2, 2, 3, 3, 4, 5, 6, 7}).Draw(t, "import_kinds")
+			if kinds&1 != 0 {
+				s.ImpFrom = from
+			}
+			if kinds&2 != 0 {
+				s.TabFrom = from
+			}
+			if kinds&4 != 0 {
+				s.GlobFrom = from
+			}
+			s.ExpTab = rapid.IntRange(0, 3).Draw(t, "exp_tab") > 0
+			s.ExpGlob = rapid.IntRange(0, 2).Draw(t, "exp_glob") > 0
 		}
-		s.ExpTab = rapid.IntRange(0, 3).Draw(t, "exp_tab") > 0
-		s.ExpGlob = rapid.IntRange(0, 2).Draw(t, "exp_glob") > 0
 		if rapid.Bool().Draw(t, "has_elem") {
 			s.Elem = rapid.IntRange(0, tableSlots-1).Draw(t, "elem")
 		}
@@ -655,11 +671,11 @@ func genStep(t *rapid.T, m *model, excluded *int) (s step, ok bool) {
 	add("closecm", 2, len(openCM) > 0 && len(liveI) > 0)
 	add("closert", 1, len(closable) > 0 && len(m.insts) > 2)
 	add("closecache", 1, m.cfg.Cache && !m.cacheClosed && len(liveI) > 0)
-	add("drop", 10, len(closedUndropped) > 0)
+	add("drop", 18, len(closedUndropped) > 0)
 	add("dropcm", 3, len(closedCM) > 0)
 	add("droprt", 2, len(closedRT) > 0)
 	add("dropall", 4, len(closedUndropped)+len(closedCM)+len(closedRT) > 0 || (m.cacheClosed && !m.cacheDropped))
-	add("gc", map[bool]int{true: 14, false: 1}[m.dirty], true)
+	add("gc", map[bool]int{true: 24, false: 1}[m.dirty], true)
 	var bag []string
 	for _, c := range cs {
 		for i := 0; i < c.w; i++ {
